@@ -117,6 +117,36 @@ impl Rng {
     }
 }
 
+/// characters whose encodings contain the extreme lead / continuation bytes
+/// (00 | 7F | C2 80 | DF BF | E0 A0 80 | ED 9F BF | EE 80 80 | EF BF BF | F0 90 80 80 | F4 8F BF BF)
+pub const RARE_CHARS: [char; 10] =
+    ['\u{0}', '\u{7F}', '\u{80}', '\u{7FF}', '\u{800}', '\u{D7FF}', '\u{E000}', '\u{FFFF}', '\u{10000}', '\u{10FFFF}'];
+
+/// a random scalar value: the four encoded lengths with equal weight, the rare ones over-represented
+pub fn rand_char(rng: &mut Rng) -> char {
+    loop {
+        let v = match rng.below(6) {
+            0 => rng.below(0x80),
+            1 => 0x80 + rng.below(0x800 - 0x80),
+            2 => 0x800 + rng.below(0x10000 - 0x800),
+            3 => 0x10000 + rng.below(0x110000 - 0x10000),
+            // continuation bytes 80 / BF in every position
+            4 => [0x80u64, 0xBF, 0xFF, 0x7BF, 0x840, 0xFFF, 0x1000, 0xFFC0, 0x1003F, 0x3F000, 0x3FFFF, 0x40000, 0xFFFFF, 0x100000, 0x10FFC0]
+                [rng.below(15) as usize],
+            _ => RARE_CHARS[rng.below(RARE_CHARS.len() as u64) as usize] as u64,
+        } as u32;
+        if let Some(c) = char::from_u32(v) {
+            return c;
+        }
+    }
+}
+
+/// a random string of `min..=max` chars mixing 1/2/3/4-byte characters
+pub fn rand_string(rng: &mut Rng, min: usize, max: usize) -> String {
+    let k = min + rng.below((max - min + 1) as u64) as usize;
+    (0..k).map(|_| rand_char(rng)).collect()
+}
+
 /// all strings over `alphabet` (each letter a byte string) with at most `max` letters
 pub fn all_words(alphabet: &[&[u8]], max: usize) -> Vec<Vec<u8>> {
     let mut out: Vec<Vec<u8>> = vec![vec![]];
